@@ -18,6 +18,14 @@
 (*       version defines (superseded names excluded);                      *)
 (*   SubCatSeq, MajorSeq, SubsOf.                                          *)
 (*                                                                         *)
+(* The data set named "running" is read from the LIVE installed tables AFTER *)
+(* all operation histories of binding A were replayed and after classes    *)
+(* with every escape (\s \S \d \D \i \I \c \C \w \W \p{..} \P{..}) were  *)
+(* built, mutated, subtracted and translated in the same process: the laws *)
+(* are re-checked on what those operations left behind (the companion      *)
+(* action property CodePointSet!TablesImmutable says they leave the tables *)
+(* untouched; the binding fingerprints them).                              *)
+(*                                                                         *)
 (* One initial state per obligation; the "invariant" Verdict prints every  *)
 (* refuted obligation (<<"c13viol", ob>>) instead of stopping at the first,*)
 (* so one run lists all of them.  The harness confirms each refuted        *)
